@@ -272,12 +272,28 @@ type PropHooks struct {
 	CustomOp         func(env *Env, client int, rec *OpRec) bool
 }
 
-func (e *Env) Seq() int               { return e.Sim.Step() }
-func (e *Env) Now() time.Duration     { return e.Sim.Now() }
-func (e *Env) Fault(k string)         { e.R.Faults[k]++ }
-func (e *Env) Probe(k string)         { e.R.Probes[k]++ }
-func (e *Env) ProbeN(k string, n int) { e.R.Probes[k] += n }
-func (e *Env) Oblig(n int)            { e.R.Oblig += n }
+func (e *Env) Seq() int           { return e.Sim.Step() }
+func (e *Env) Now() time.Duration { return e.Sim.Now() }
+
+// counters: after the verdict the simulation free-runs to tear down and sinks may still fire on
+// several goroutines at once — like Logf, nothing is counted any more then, and the maps are
+// never touched by two goroutines at a time
+func (e *Env) count(f func()) {
+	e.logMu.Lock()
+	defer e.logMu.Unlock()
+	if !e.Ended {
+		f()
+	}
+}
+func (e *Env) ended() bool {
+	e.logMu.Lock()
+	defer e.logMu.Unlock()
+	return e.Ended
+}
+func (e *Env) Fault(k string)         { e.count(func() { e.R.Faults[k]++ }) }
+func (e *Env) Probe(k string)         { e.count(func() { e.R.Probes[k]++ }) }
+func (e *Env) ProbeN(k string, n int) { e.count(func() { e.R.Probes[k] += n }) }
+func (e *Env) Oblig(n int)            { e.count(func() { e.R.Oblig += n }) }
 
 func (e *Env) Violate(class, site, format string, args ...any) {
 	msg := fmt.Sprintf(format, args...)
@@ -449,6 +465,9 @@ func (e *Env) createInst(i int) error {
 
 func (e *Env) addSink(in *Inst, k int, sp *SinkSpec) {
 	fn := func(rows []map[string]any) {
+		if e.ended() {
+			return // teardown: goroutines free-run, nothing is recorded any more
+		}
 		sinkID := k
 		if sp.Alias > 0 {
 			sinkID = sp.Alias - 1
